@@ -169,6 +169,7 @@ SRC_RS = r'''
 pub trait Src {
     fn u8(&mut self) -> u8;
     fn pick(&mut self, n: u8) -> u8;
+    fn pick16(&mut self, n: u16) -> u16 { self.u16() % n.max(1) }
     fn boolean(&mut self) -> bool { self.u8() & 1 == 1 }
     fn i8(&mut self) -> i8 { self.u8() as i8 }
     fn u16(&mut self) -> u16 { (self.u8() as u16) | ((self.u8() as u16) << 8) }
@@ -205,6 +206,7 @@ pub struct KaniSrc;
 impl Src for KaniSrc {
     fn u8(&mut self) -> u8 { kani::any() }
     fn pick(&mut self, n: u8) -> u8 { let v: u8 = kani::any(); kani::assume(v < n); v }
+    fn pick16(&mut self, n: u16) -> u16 { let v: u16 = kani::any(); kani::assume(v < n); v }
 }
 
 pub struct BytesSrc { pub vals: Vec<u8>, pub at: usize }
